@@ -23,6 +23,9 @@ def match_finding(findings, prop, signature):
             allowed = f.get("allowed_suffixes")
             if allowed is not None and signature.rsplit(":", 1)[-1] not in allowed:
                 continue
+            subset = f.get("allowed_changed_registries")
+            if subset is not None and not set(signature.rsplit("/", 1)[-1].split("+")) <= set(subset):
+                continue      # partial state reaching a registry this call has no business writing
             return f
     return None
 
